@@ -556,6 +556,12 @@ func SplitSign(args []string) {
 			if err != nil {
 				r.Note("%s: first signature for the presigned input failed: %v", ti.Name, err)
 			} else {
+				// a Debian package holds one signature per role: the alternative option set signs as another role, which
+				// adds a second signature instead of replacing the first
+				wantSigs := 1
+				if ti.Name == "deb" && v.alt {
+					wantSigs = 2
+				}
 				for pi, pat := range pats[:3] {
 					in := filepath.Join(filepath.Dir(signed1), fmt.Sprintf("presigned-%d-%s", pi, filepath.Base(signed1)))
 					copyFile(signed1, in)
@@ -566,7 +572,7 @@ func SplitSign(args []string) {
 					if err != nil {
 						key["kind"] = "split-sign-fails"
 						r.Fail(key, rep, "%s (input already signed): signing with read sizes %v fails: %v", ti.Name, pat, err)
-					} else if verr := e.w.VerifyFile(&ti, ki, out, in); verr != nil {
+					} else if verr := e.w.VerifyFileWant(&ti, ki, out, in, wantSigs); verr != nil {
 						key["kind"] = "split-unverifiable"
 						r.Fail(key, rep, "%s (input already signed, second signature with alt options=%v): stream delivered in reads of %v: the verifier rejects the result: %v", ti.Name, v.alt, pat, verr)
 					}
